@@ -339,7 +339,17 @@ class CmdMixin(object):
             # its row was removed wrongly earlier (a violation already reported): the sides that never released still hold it
             problems.append("still held by %s (never released; its row had been removed wrongly)" % sorted(lost[1]))
         if problems:
-            self.flag({"C04"} | ({"C18"} if not self.cfg.allow_list else set()),
+            also = set()
+            if NUM_RE.match(name):
+                # C07: a retired nameplate "can be allocated again".  When every free value of the shortest band is a
+                # name that was held before and allocate passes the whole band over, it treats them as not allocatable.
+                for size in (1, 2, 3):
+                    free = [v for v in ("%d" % i for i in range(10 ** (size - 1), 10 ** size)) if v not in used]
+                    if free:
+                        if len(name) > size and all((cm.app, v) in self.np_ever for v in free):
+                            also.add("C07")
+                        break
+            self.flag({"C04"} | also | ({"C18"} if not self.cfg.allow_list else set()),
                       "allocated nameplate violates free/shortest rule", st,
                       {"name": name, "problems": problems, "in_use": sorted(used)[:40]})
         # held when the answer is sent: checked at emission by C04's frame hook too; here after the step
@@ -354,6 +364,7 @@ class CmdMixin(object):
             self.flag({"C04", "C09"}, "allocated nameplate not held by the allocating side", st, {"name": name})
             return
         n = NpInc(cm.app, name, self._new_n(), st.t)
+        self.np_ever.add((cm.app, name))
         n.rowid, n.mid = rows[0][0], mid
         n.attempts.append((cm.side, st.t))
         n.ok.append(cm.side)
@@ -444,6 +455,7 @@ class CmdMixin(object):
                               "a claimant of a nameplate that other sides still hold is told a different mailbox id than they were", st,
                               {"name": name, "side": cm.side, "told": mid, "earlier": lost[0], "holders": sorted(lost[1])})
             n = NpInc(cm.app, name, self._new_n(), st.t)
+            self.np_ever.add((cm.app, name))
             n.mid = mid
             n.attempts.append((cm.side, st.t))
             n.ok.append(cm.side)
